@@ -155,6 +155,14 @@ func buildC03(e *engine, p *rt.Package) {
 					o := valgen.Opts{JSONSafe: true, NoNaN: true}
 					req := drawRequest(t, info, m, o, true)
 					rm := req.ProtoReflect()
+					// path text with characters that mean something in a URL (not "/", which C01 owns): every generator
+					// must keep it inside its segment
+					for _, fd := range info.PathFields {
+						if fd != nil && fd.Kind() == protoreflect.StringKind && rapid.IntRange(0, 2).Draw(t, "reserved."+string(fd.Name())) == 0 {
+							rm.Set(fd, protoreflect.ValueOfString(rapid.StringMatching(`[a-z][a-z0-9?#&=+ %:@,;~!$'()*-]{1,7}`).Draw(t, "reservedv."+string(fd.Name()))))
+							res.class("path_value:reserved_characters")
+						}
+					}
 					// make every URL-bound field non-default so that its placement is observable
 					for _, q := range info.Query {
 						if !q.Field.IsList() {
